@@ -702,8 +702,14 @@ func runCheck(e entry, tier string, replay string) int {
 		}
 	}
 	m.Violations = append(m.Violations, crashVios...)
-	if broken {
+	if broken && len(m.Violations) == 0 {
 		return 2
+	}
+	if broken {
+		// some shard or part did not complete, but others found violations:
+		// report those (exit 1) rather than hiding them behind the harness error
+		m.Exhaustive = false
+		m.Caps = append(m.Caps, "a shard or part did not complete (see HARNESS-ERROR above); violations found by the others are reported")
 	}
 	for _, bp := range parts {
 		if len(bp.e.RacePass) == 2 && racePassBudget(bp.e, tier) > 0 {
@@ -827,6 +833,9 @@ func runCheck(e entry, tier string, replay string) int {
 	}
 	if newVios > 0 {
 		return 1
+	}
+	if broken {
+		return 2
 	}
 	if vacuous {
 		fmt.Fprintf(os.Stderr, "HARNESS-ERROR property=%s vacuous exploration (evaluations=%d distinct=%d outcomes=%d)\n", e.ID, m.Evaluations, dn, len(outcomes))
